@@ -6,6 +6,7 @@ package main
 import (
 	"fmt"
 	"go/types"
+	"math/big"
 	"strings"
 	"unicode/utf8"
 
@@ -171,7 +172,23 @@ func (e *Engine) encodeValue(ctx encCtx, v Value, t types.Type) (*Node, Iface) {
 		n := e.newNode(2, e.ropeLen(s.r))
 		n.content = s.r
 		return n, Iface{}
-	case isBigInt(t), namedIs(t, "time", "Time"):
+	case isBigInt(t):
+		// BigIntConvertShortest (default): values that fit the CBOR integer range are integers
+		b := v.(BigV)
+		if b.mag.w > 72 {
+			e.unsupported("encoding of a wide big.Int")
+		}
+		m := tt.ZExt(b.mag, 72)
+		if e.branch(b.neg) {
+			arg := tt.Bin("bvsub", m, tt.BVu(1, 72))
+			if e.branch(tt.Cmp("bvult", arg, tt.BV(new(big.Int).Lsh(big.NewInt(1), 64), 72))) {
+				return e.newNode(1, tt.Extract(arg, 63, 0)), Iface{}
+			}
+		} else if e.branch(tt.Cmp("bvult", m, tt.BV(new(big.Int).Lsh(big.NewInt(1), 64), 72))) {
+			return e.newNode(0, tt.Extract(m, 63, 0)), Iface{}
+		}
+		e.unsupported("encoding of a big.Int outside the CBOR integer range (bignum tags are outside the modelled data model)")
+	case namedIs(t, "time", "Time"):
 		e.unsupported("encoding of " + t.String() + " (outside the modelled data model)")
 	}
 	if fn, ptrRecv := e.findMethod(t, "MarshalCBOR"); fn != nil {
@@ -537,6 +554,9 @@ func (e *Engine) parseOne(r Rope) (n *Node, rest Rope, err string) {
 	node, used, perr := e.parseConcrete(buf, 0)
 	if perr != "" {
 		if k < len(r) {
+			if bl, ok := r[k].(SegBlob); ok && strings.HasPrefix(bl.arr.name, "blob:garbage") {
+				return nil, nil, "syntax error (literal prefix followed by unstructured input)"
+			}
 			e.unsupported("decode of mixed literal/symbolic rope")
 		}
 		return nil, nil, perr
